@@ -368,6 +368,18 @@ func extractCfg(file *ast.File, f *facts) (clauseHash string) {
 	return
 }
 
+func firstFuncLit(n ast.Node) *ast.FuncLit {
+	var out *ast.FuncLit
+	ast.Inspect(n, func(x ast.Node) bool {
+		if fl, ok := x.(*ast.FuncLit); ok && out == nil {
+			out = fl
+			return false
+		}
+		return out == nil
+	})
+	return out
+}
+
 // extractRecvUnary: the twin of the receive shortcut in the post-order of unaryExpr — a unary operation that is the single
 // source of an assignment stores straight into the destination; since 212dc2e a receive is excluded.
 func extractRecvUnary(cfg *ast.File, f *facts) {
@@ -686,7 +698,7 @@ func main() {
 		for _, n := range []string{"assignCopies", "multiTemps", "multiDefineTemps", "multiDefineRedeclAssigns", "multiDefineRedeclCopies", "defineFresh",
 			"callCopiesArgs", "rangeSnapshotsArray", "closureClonesFrame", "callShortcut", "litShortcut", "shortcutGuardsSingle",
 			"structLitSetsSlot", "structLitAssignSets", "structLitInTemp", "arrayLitSets", "arrayLitFresh", "arrayLitAssignInPlace", "lookup2OnlyIfValid",
-			"lookup2DefineFresh", "lookup2RedeclInPlace", "appendArgsAreSlots", "derefNilPanics", "recvAssignsValue", "assertDefineFresh",
+			"lookup2DefineFresh", "lookup2RedeclInPlace", "appendArgsAreSlots", "derefNilPanics", "callResultsFresh", "returnTwoPhase", "recvAssignsValue", "assertDefineFresh",
 			"assertZeroOnFail"} {
 			f.set(n, false)
 		}
@@ -694,6 +706,34 @@ func main() {
 
 		if fd := common.FindFunc(run, "", "call"); fd != nil {
 			f.set("callCopiesArgs", contains(fd, "dest[i].Set(val)") && !contains(fd, "dest[i] = val"))
+			// the result slots of the callee frame: fresh cells copied back after runCfg (since 1b5ab85), or the destination's cells
+			var ord *ast.FuncLit
+			for _, st := range fd.Body.List {
+				if fl := execLit(st); fl != nil {
+					ord = fl
+				}
+			}
+			if ord == nil {
+				f.miss("call: exec of an ordinary call")
+			} else {
+				freshAll, aliased := false, contains(ord, "nf.data[i] = v(f)")
+				ast.Inspect(ord, func(x ast.Node) bool {
+					if rs, ok := x.(*ast.RangeStmt); ok && text(rs.X) == "rvalues" && len(rs.Body.List) == 1 &&
+						text(rs.Body.List[0]) == "nf.data[i] = reflect.New(def.types[i]).Elem()" {
+						freshAll = true
+					}
+					return true
+				})
+				copiedBack := contains(ord, "v(f).Set(nf.data[i])")
+				switch {
+				case freshAll && !aliased && copiedBack:
+					f.set("callResultsFresh", true)
+				case aliased && copiedBack:
+					f.set("callResultsFresh", false)
+				default:
+					f.miss("call: result slots either fresh cells (`for i := range rvalues { nf.data[i] = reflect.New(def.types[i]).Elem() }`) or the destination's (`nf.data[i] = v(f)`), copied with `v(f).Set(nf.data[i])` after runCfg")
+				}
+			}
 		} else {
 			f.miss("func call")
 		}
@@ -714,7 +754,10 @@ func main() {
 		if fd := common.FindFunc(run, "", "_range"); fd != nil {
 			// since bb375fd genValueRangeArray takes a second argument (key only: a nil pointer to an array is not dereferenced)
 			viaRange := contains(fd, "value = genValueRangeArray(an)") ||
-				(contains(fd, "value = genValueRangeArray(an, isBlank(n.child[1]))") && contains(fd, "value = genValueRangeArray(an, true)"))
+				(contains(fd, "value = genValueRangeArray(an, isBlank(n.child[1]))") && contains(fd, "value = genValueRangeArray(an, true)")) ||
+				// since 2e3bfaf the blank test has a name (and guards the store of the element)
+				(contains(fd, "blankValue := isBlank(n.child[1])") && contains(fd, "value = genValueRangeArray(an, blankValue)") &&
+					contains(fd, "value = genValueRangeArray(an, true)"))
 			if !viaRange || !contains(fd, "f.data[index2] = value(f)") {
 				f.set("rangeSnapshotsArray", false)
 				f.miss("_range: shadow copy through genValueRangeArray")
@@ -826,6 +869,36 @@ func main() {
 		}
 
 		extractAppend(run, f)
+		if fd := common.FindFunc(run, "", "_return"); fd != nil {
+			// 8544122: when an operand lives in an earlier result slot, every operand is copied into a temporary before any
+			// result slot is set
+			two := false
+			ast.Inspect(fd, func(x ast.Node) bool {
+				rs, ok := x.(*ast.RangeStmt)
+				if !ok || text(rs.X) != "child" {
+					return true
+				}
+				guard := false
+				for _, st := range rs.Body.List {
+					if is, ok := st.(*ast.IfStmt); ok && strings.HasSuffix(text(is.Cond), "c.findex >= i") && contains(is.Body, "continue") {
+						guard = true
+					}
+				}
+				if guard && contains(rs.Body, "tmp[i].Set(v)") && contains(rs.Body, "f.data[i].Set(v)") && contains(rs.Body, "tmp := make([]reflect.Value, len(values))") {
+					if fl := firstFuncLit(rs.Body); fl != nil {
+						ls := rangeLoops(fl)
+						two = len(ls) == 2 && text(ls[0].X) == "values" && text(ls[1].X) == "tmp" && !contains(ls[0].Body, "f.data[i].Set(v)")
+					}
+				}
+				return true
+			})
+			f.set("returnTwoPhase", two)
+			if !two && strings.Contains(text(fd), "tmp") {
+				f.miss("_return: two-phase exec (`tmp[i].Set(v)` for all operands, then `f.data[i].Set(v)`) guarded by `… || c.findex >= i`")
+			}
+		} else {
+			f.miss("func _return")
+		}
 		extractDeref(run, f)
 
 		// the frame slot reserved for the ranged value when ranging over a pointer to an array (da35a0b, F04-7): a matter
@@ -861,7 +934,7 @@ func main() {
 		fmt.Fprintf(&b, "/-- shapes the extractor looked for and did not find -/\ndef unrecognised : List String := %s\n", common.LeanStrList(f.unrecognised))
 		runNames := [][2]string{{"", "assign"}, {"", "assignFromCall"}, {"", "addr"}, {"", "deref"}, {"", "getIndexArray"},
 			{"", "getIndexMap"}, {"", "getIndexMap2"}, {"", "getFunc"}, {"", "getIndexSeq"}, {"", "getPtrIndexSeq"}, {"", "arrayLit"},
-			{"", "mapLit"}, {"", "genValueLit"}, {"", "genValueDefine"}, {"", "typeAssert"}, {"", "recv"}, {"", "doComposite"}, {"", "_range"}, {"", "loopVarKey"}, {"", "loopVarVal"}, {"", "_append"}, {"", "appendSlice"}, {"", "_copy"},
+			{"", "mapLit"}, {"", "genValueLit"}, {"", "genValueDefine"}, {"", "typeAssert"}, {"", "recv"}, {"", "_return"}, {"", "doComposite"}, {"", "_range"}, {"", "loopVarKey"}, {"", "loopVarVal"}, {"", "_append"}, {"", "appendSlice"}, {"", "_copy"},
 			{"", "_delete"}, {"", "slice"}, {"", "slice0"}}
 		hr := common.HashTable(fsetR, run, runNames)
 		// of `call` only the closure that performs an ordinary (not deferred, not go) call is transcribed: the last
